@@ -24,7 +24,7 @@ theorem isort_perm (le : Elem → Elem → Bool) (l : List Elem) : (isort le l).
     rw [this]
     exact (insertBy_perm le x _).trans (ih.cons x)
 
-theorem keysOk_ctxOf (L : Nat) (first : Bool) (vo so np : Nat) (p : APart) {e : Elem} (he : e ∈ p.elems) :
+theorem keysOk_ctxOf (L : Nat) (first : Bool) (vo so np : Nat) (p : APart) {e : Elem} (he : e ∈ allElems p) :
     keysOk (ctxOf L first vo so np p) e = true := by
   simp only [keysOk, ctxOf, Bool.and_eq_true, Bool.or_eq_true, Bool.not_eq_true']
   constructor
